@@ -23,12 +23,12 @@ theorem sum8_foldl (b : Bytes) (a : UInt8) : b.foldl (· + ·) a = a + sum8 b :=
     rw [ih, ih (0 + x)]
     grind
 
-theorem sum8_cons (x : UInt8) (b : Bytes) : sum8 (x :: b) = x + sum8 b := by
+theorem ex_sum8_cons (x : UInt8) (b : Bytes) : sum8 (x :: b) = x + sum8 b := by
   simp only [sum8, List.foldl_cons]
   rw [sum8_foldl]
   simp [sum8]
 
-theorem sum8_append (a b : Bytes) : sum8 (a ++ b) = sum8 a + sum8 b := by
+theorem ex_sum8_append (a b : Bytes) : sum8 (a ++ b) = sum8 a + sum8 b := by
   simp only [sum8, List.foldl_append]
   rw [sum8_foldl]
   simp [sum8]
@@ -40,8 +40,8 @@ theorem sum8_hdr (i : FileInfo) (x y : UInt8) (hs : Nat) (hg : i.guid.length = 1
   have t24 : i.guid.take 24 = i.guid := List.take_of_length_le (by omega)
   have t32 : i.guid.take 32 = i.guid := List.take_of_length_le (by omega)
   rcases h with rfl | rfl
-  · simp [List.take_append, hg, sum8_append, sum8_cons, t24]
-  · simp [List.take_append, hg, sum8_append, sum8_cons, t32]
+  · simp [List.take_append, hg, ex_sum8_append, ex_sum8_cons, t24]
+  · simp [List.take_append, hg, ex_sum8_append, ex_sum8_cons, t32]
 
 /-- the header checksum `ChecksumAndAssemble` ends up with: a function of the other header fields -/
 def ckhOf (i : FileInfo) : UInt8 :=
